@@ -341,8 +341,12 @@ def _v_sleep(sec):
             vp.sync(Op("walltime", ""))
             vp.die("walltime")
         return
-    # any other sleep (retry delays, promote loops, the 15 s pause) is a purely local delay: the
-    # shared accesses around it are sync points themselves, so it is not one (DESIGN 1.3)
+    # any other sleep (retry delays, promote loops, the 15 s pause): time passes, i.e. the others
+    # may move first.  The sleeper is enabled again once somebody else has taken a step or nobody
+    # else can (World.options treats kind "sleep" specially), so waiting in a retry loop never
+    # costs a preemption and a polling loop cannot starve the process it is waiting for.
+    if sec >= 1:
+        vp.sync(Op("sleep", site))
     return
 
 
